@@ -32,6 +32,7 @@ import (
 	"net/url"
 	"os"
 	"path/filepath"
+	"runtime/debug"
 	"sort"
 	"strings"
 	"sync"
@@ -675,6 +676,7 @@ type vResult struct {
 	Header   http.Header
 	Body     string
 	Panic    interface{}
+	Stack    string
 	Upstream []vUpstreamHit
 	Cookies  []*http.Cookie
 }
@@ -715,6 +717,7 @@ func (e *vEnv) serve(req *http.Request) (res *vResult) {
 		defer func() {
 			if x := recover(); x != nil {
 				res.Panic = x
+				res.Stack = string(debug.Stack())
 			}
 		}()
 		e.p.ServeHTTP(rw, req)
